@@ -182,6 +182,7 @@ func RunDispatch(t *testing.T, sc *DScenario) (recs []interface{}, failure strin
 			for {
 				select {
 				case raw := <-h.Outgoing():
+					raw = append([]byte{}, raw...)
 					d := MakeDigest(raw)
 					mu.Lock()
 					wire = append(wire, WireMsg{d.Ty, d.Seq, ints(raw)})
